@@ -5,7 +5,7 @@ import vlib
 TARGETS = ["Base/Corr.vo", "C11/Model.vo", "C11/Spec.vo", "C11/ProofsMap.vo", "C11/ProofsIter.vo", "C11/ProofsInv.vo",
            "C11/ProofsRef.vo",
            "C03/Model.vo", "C03/Corr.vo", "C03/Spec.vo", "C03/SpecTest.vo", "C03/ProofsDense.vo",
-           "C03/ProofsSem.vo", "C03/ProofsJoint.vo", "C03/ProofsOps.vo", "C03/Props.vo"]
+           "C03/ProofsSem.vo", "C03/ProofsJoint.vo", "C03/ProofsConv.vo", "C03/ProofsOps.vo", "C03/Props.vo"]
 PROPS = ["C03/Props.v"]
 PARTIAL = ("Theorems are about the hand-written model coq/C03/Model.v (on top of the shared sparse-vector model "
            "coq/C11/Model.v: heap of cells + value map + ordered key set standing for the AVL index, justified by C19) of "
